@@ -759,6 +759,21 @@ func c14Accepts(b []byte) (accepted bool, panicked bool) {
 			ok = kc.CheckIntegrity()
 		}
 	})
+	if p == "" && err == nil && !ok {
+		// the verdict is about the RECEIVED bytes: it is the same after the object was asked for other things in between
+		// (re-serialised, printed) -- a blob that fails the check does not start passing it
+		kc2 := &kcl.KeyCredential{}
+		later := false
+		p2 := h.Guard(func() {
+			if kc2.FromBytes(append([]byte(nil), b...)) == nil {
+				kc2.ToBytes()
+				later = kc2.CheckIntegrity()
+			}
+		})
+		if p2 == "" && later {
+			return true, false
+		}
+	}
 	return p == "" && err == nil && ok, p != ""
 }
 
